@@ -1,8 +1,19 @@
 (* C15 — exported theorems only: each is closed by [exact] and followed by Print Assumptions. *)
 From Coq Require Import List ZArith Bool.
-From Verif Require Import C15.Model C15.Spec C15.Proofs.
+From Verif Require Import C15.Model C15.Spec C15.Proofs C15.Proofs_inv.
 Import ListNotations.
 Open Scope Z_scope.
+
+(* the initial record is well formed and every request (accepted or not) keeps it so *)
+Theorem c15_inv : WF init_topo /\ (forall s r, WF s -> WF (step s r)).
+Proof. exact (conj WF_init WF_step). Qed.
+Print Assumptions c15_inv.
+
+(* after ANY finite sequence of create/update/delete requests (any payloads, any pods in the
+   environment, any old objects) the recorded quotas form a well-formed tree *)
+Theorem c15_accepted_histories_wf : forall rs, WF (run rs).
+Proof. exact WF_run. Qed.
+Print Assumptions c15_accepted_histories_wf.
 
 (* a rejected request leaves the recorded topology unchanged *)
 Theorem c15_reject_frame : forall s r, accepted s r = false -> step s r = s.
